@@ -65,6 +65,13 @@ POOL = [
     # texts without digits, a Russian text with the 'с <number>' range form, an autodetected text without digits
     mk("en_skipfoo", "parse", "foo 12 May 2015", "en", {"SKIP_TOKENS": ["foo"]}),    # parses only because of its SKIP_TOKENS
     mk("fr_skip_nonorm", "parse", "bar 12 février 2015", "fr", {"SKIP_TOKENS": ["bar"], "NORMALIZE": False}),
+    # caller-supplied formats together with zone settings (DateDataParser entry point), two different zones
+    mk("fmt_tz_est", "ddp", "12.05.2015 10:30", "en", {"TIMEZONE": "EST", "TO_TIMEZONE": "UTC"}, formats=["%d.%m.%Y %H:%M"]),
+    mk("fmt_tz_tokyo", "ddp", "12.05.2015 10:30", "en", {"TIMEZONE": "Asia/Tokyo", "TO_TIMEZONE": "UTC"}, formats=["%d.%m.%Y %H:%M"]),
+    mk("fmt_tz_pkt_aware", "inst", "12.05.2015 10:30", "en", {"TIMEZONE": "PKT", "RETURN_AS_TIMEZONE_AWARE": True}, formats=["%d.%m.%Y %H:%M"]),
+    # one long-lived parser with two languages, asked for strings of either language (the reported locale is part of the outcome)
+    mk("inst_multi_fr", "inst", "12 mai 2015 10:30", None, langs=["fr", "en"]),
+    mk("inst_multi_en", "inst", "12 May 2015 10:30", None, langs=["fr", "en"]),
     mk("search_en_words", "search", "It happened yesterday and again on Monday", "en", adl=False),
     mk("search_ru_range", "search", "Это было с 12 января по 30 апреля 2021", "ru", adl=False),
     mk("search_de_words", "search", "Es war gestern und vorgestern", "de", adl=True),
@@ -85,7 +92,9 @@ PAIRS = [("fr_num", "en_num"), ("en_num", "en_dmy"), ("fr_num", "default"), ("en
          ("en_skip", "search_en_words"), ("en_noskip", "search_en_words"), ("search_ru_range", "search_en"),
          ("search_ru_range", "search_fr"), ("search_de_words", "rel_de"), ("search_auto_words", "en_skip"),
          ("search_en_words", "search_ru_range"), ("en_skipfoo", "search_en_words"), ("en_skipfoo", "en_num"),
-         ("fr_skip_nonorm", "search_fr"), ("en_skipfoo", "search_en")]
+         ("fr_skip_nonorm", "search_fr"), ("en_skipfoo", "search_en"),
+         ("fmt_tz_est", "fmt_tz_tokyo"), ("fmt_tz_pkt_aware", "fmt_tz_est"), ("inst_multi_fr", "inst_multi_en"),
+         ("inst_multi_fr", "fr_num")]
 
 
 def shards(tier, seed):
